@@ -48,7 +48,7 @@ def fmtReport (r : Report) : String :=
   unwords (["D", toString r.diags.length] ++ r.diags.map (fun d => s!"{d.1.toNat}:{d.2}") ++
            ["I", toString r.info.length] ++ r.info.map (fun kv => s!"{kv.1}:{kv.2}"))
 
-def step (st : St) (toks : List String) : St × String :=
+def step1 (st : St) (toks : List String) : St × String :=
   match toks with
   | ["chk.new", k, t, e] =>
     match parseKind? k, parseF64? t, parseF64? e with
@@ -97,4 +97,20 @@ def step (st : St) (toks : List String) : St × String :=
     | none => (st, "bad-op")
   | _ => (st, "bad-op")
 
-def main : IO Unit := Proto.run ({} : St) step
+/-- two independent objects (the harness gives them different names); `sib.chk.*` drives the second one. Check-ups share nothing,
+    so the model is simply a pair of states. -/
+def step (st : St × St) (toks : List String) : (St × St) × String :=
+  match toks with
+  | op :: args =>
+    if op.startsWith "sib." then
+      let op' := (op.drop 4).toString
+      if op'.startsWith "chk." then
+        let (s2, out) := step1 st.2 (op' :: args)
+        ((st.1, s2), out)
+      else (st, "bad-op")
+    else
+      let (s1, out) := step1 st.1 toks
+      ((s1, st.2), out)
+  | [] => (st, "bad-op")
+
+def main : IO Unit := Proto.run (({} : St), ({} : St)) step
